@@ -21,7 +21,10 @@ LEVEL_TEXT = (
     "work graphs, all histories and all fuel values, no bound. For every well-formed environment history (EnvOk, an "
     "explicit decidable predicate): P1/P2 announced ids are strictly increasing, hence each id is announced at most "
     "once and never reused; P4 every announced id is completed exactly once in a stream that ended; P5 no proper "
-    "ancestor of a pending (root) fragment is left in the graph and the pending fragments form an antichain; the "
+    "ancestor of a pending (root) fragment is left in the graph, the pending fragments form an antichain, and at every "
+    "payload boundary no announced-and-uncompleted entry encloses any announced entry (payload level, via the "
+    "publisher's id table); P6 the stream entries of the payloads are the handled batches item for item in order, with "
+    "consecutive source indices per stream; the "
     "scheduler-graph invariant (forest along parent, children listed once and not roots, child streams in one task "
     "node). Without any hypothesis on the environment: ids never reused after deletion, no id completed twice, no data "
     "after completion, P7 (hasNext true on every payload but the last; a payload with hasNext=false stops the scheduler "
@@ -36,10 +39,10 @@ LEVEL_NOTE = (
     "Trusted: Lean kernel; hand-written models Gql/Async/{WorkQueue,Publisher,StreamQueue}.lean tied to the code by "
     "correspondence only; asyncio scheduling is abstracted to 'one batch per quiescent point + deferred callbacks', "
     "validated on a harness-owned event loop; consumer pull timing, cancellation delivery and GC are outside the "
-    "model (covered only by the end-to-end oracle). P5 is proved as a state invariant of the scheduler (roots vs. "
-    "ancestors), P6 at the stream queue; the payload-level decision procedure (P3b, P5/P6 per payload, and the whole "
-    "of `check`) is run on every explored stream, not proved equivalent to the invariants. drain's fuel (events per "
-    "batch) is a parameter of every theorem; EnvOk on what the real executor feeds the queue is not observed."
+    "model (covered only by the end-to-end oracle). The clauses are proved as separate predicates on the payload "
+    "stream; that the decision procedure `check` as a whole accepts every EnvOk prefix (protocol_prefix_full) is still a "
+    "`def`, `check` being run on every explored stream instead. drain's fuel (events per batch) is a parameter of every "
+    "theorem. EnvOk is observed on what the real executor feeds the queue in every explored end-to-end run."
 )
 TECHNIQUE = "Lean 4 trace invariants over an executable scheduler model + differential replay + spec validator oracle"
 TRUSTED = [
@@ -55,6 +58,13 @@ ASSUMPTIONS = [
     "objects per Work; a new group's parent is None, in the same Work or in the graph; nested work refers only to groups "
     "it introduces or groups of the producing task; streams deliver in index order and nothing after stop/failure; "
     "groups are numbered by allocation serial (a group's parent object exists before the group: parent g < g)",
+    "EnvOk is *observed* on every explored end-to-end run: the harness records what the real executor feeds the "
+    "WorkQueue (initial work, every handled graph event with its nested work) and drv_c05 decides envOk on it "
+    "(evidence: e2e_feeds / e2e_feeds_envok). Known exception, counted as e2e_feeds_unfed_parent and noted: about 3 "
+    "in 10^4 generated requests (null propagation + nested @defer under @stream) make the executor hand over a group "
+    "whose parent fragment object it never handed over; the scheduler keeps it as an undelivered orphan; E2 excludes "
+    "it, so the theorems do not cover those runs (their streams still pass the validator). Any other non-EnvOk feed "
+    "is reported as a broken tie (disagreement)",
     "O1 (DESIGN §7): a `completed` entry for a never-announced id is accepted by the validator (no clause forbids it)",
     "the consumer pulls eagerly in the direct correspondence; lazy pulling is explored end-to-end only",
 ]
@@ -445,6 +455,7 @@ def _work_e2e(args):
     driver = fw.Driver(drv) if drv else None
     cases = list(given) + [E.gen_case(random.Random(f"c05-e2e:{s}")) for s in seeds]
     lines, meta = [], []
+    feed_lines, feed_meta = [], []
     for case in cases:
         rep.evaluations += 1
         try:
@@ -471,6 +482,13 @@ def _work_e2e(args):
         line, id_names = E.enc_stream(case, init, subs, want_ids=True)
         lines.append(line)
         meta.append((case, init, subs, id_names, list(info.get("pruned_undelivered") or [])))
+        # what the real executor fed the scheduler: is it a well-formed environment (EnvOk)?
+        for feed in info.get("feeds") or []:
+            try:
+                feed_lines.append(feed.sim_line())
+                feed_meta.append((case, feed.case(), feed.unfed_parents()))
+            except Exception as e:  # noqa: BLE001
+                rep.notes.append(f"feed recording failed: {e!r}")
     if driver and lines:
         for (case, init, subs, id_names, pruned), verdict in zip(meta, driver.run(lines)):
             if verdict != "ok":
@@ -487,6 +505,35 @@ def _work_e2e(args):
                         [init] + subs,
                         "Spec.Protocol.protocolOk",
                         "Spec.Protocol.check on the stream of experimental_execute_incrementally",
+                    )
+                )
+    if driver and feed_lines:
+        for (case, feed, unfed), out in zip(feed_meta, driver.run(feed_lines)):
+            rep.evaluations += 1
+            rep.stats["e2e_feeds"] = rep.stats.get("e2e_feeds", 0) + 1
+            rep.stats["e2e_feed_events"] = rep.stats.get("e2e_feed_events", 0) + sum(len(t) for t in feed["history"])
+            if "|| envok 1" in out:
+                rep.stats["e2e_feeds_envok"] = rep.stats.get("e2e_feeds_envok", 0) + 1
+            elif unfed:
+                # EnvOk is a hypothesis, not the property: a run outside it is outside the theorems (its
+                # stream is still judged by the validator above).  Diagnosed cause: the executor hands the
+                # scheduler a group whose parent fragment object it never handed over; the scheduler keeps
+                # such a group as an orphan that is never delivered.
+                rep.stats["e2e_feeds_unfed_parent"] = rep.stats.get("e2e_feeds_unfed_parent", 0) + 1
+                if rep.stats["e2e_feeds_unfed_parent"] <= 2:
+                    rep.notes.append(
+                        "feed outside EnvOk (E2): group(s) with a parent never given to the scheduler "
+                        f"{unfed}; query={case['query']!r} sched={case['sched']} early={case['early']}"
+                    )
+            else:
+                # the model's hypotheses do not cover what the executor does: a broken tie, not by itself
+                # a violation of the property
+                rep.disagreements.append(
+                    Disagreement(
+                        "EnvOk vs the incremental executor's feed",
+                        {"kind": "e2e", "case": case},
+                        feed,
+                        "envOk = true",
                     )
                 )
     if meta:
